@@ -451,7 +451,14 @@ func GenHistory(t *rapid.T, hp *HistoryParams) Case {
 		}
 		sched := func() []int { return GenSchedule(t) }
 		var pk int
-		if flat {
+		if flat && hp.Episodes {
+			// the phrases with concurrent episodes (9 and up: races of resync / release / unbind / sync against scheduling) twice as
+			// often as the sequential ones
+			pk = uniformInt(t, 9+2*(maxKind-8), "phraseKindFlat")
+			if pk > 8 {
+				pk = 9 + (pk-9)/2
+			}
+		} else if flat {
 			pk = uniformInt(t, maxKind+1, "phraseKindFlat")
 		} else {
 			pk = rapid.IntRange(0, maxKind).Draw(t, "phraseKind")
